@@ -122,13 +122,15 @@ CHECKS = {
     "C11": {
         "level": "exploration",
         "engine": "E1",
-        "needs_bins": [],
+        "needs_bins": ["mrp", "mrjob", "stagebin"],
         "technique": "property-based testing (rapid): injectivity + parse round trip of fork / journal names over generated Unicode key sets; end-to-end mapped runs over adversarial keys and lengths against the reference model",
         "level_text": ("Unit level (verif-tag exports): for generated key sets (dots, slashes, percent signs, spaces, control and non-ASCII characters, already-encoded looking text, names of "
                        "metadata files) distinct keys give distinct directory and journal names, and the journal file name of (node, fork, chunk, attempt, file) parses back to exactly "
                        "those parts and cannot be taken for an array index. End to end (E1): map calls of a (splitting or plain) stage over literal maps with such keys, literal arrays of "
                        "length 1..101, and run-time maps / arrays; chunk counts {1,2,9,10,11}; the pipestance must complete (deterministic stall predicate) and every fork must receive "
-                       "and return its own element (C01/C03 machinery with key-dependent values). Exploration."),
+                       "and return its own element (C01/C03 machinery with key-dependent values). With real processes in a cluster job mode (TestE2ClusterKeys: generated programs "
+                       "in which most calls are map calls, mostly over typed maps whose keys include the parameters of the job script templates, __MRO_MEM_GB__ and the like): every job "
+                       "runs in, and reports under, the names mrp listens for, or the run does not complete with the model's outputs. Exploration."),
         "level_note": "Node.find/getFork routing is exercised only end to end (they need a live node tree); keys are <= 60 bytes; '$' is excluded from program text because mrp expands environment variables in invocation source.",
         "rule": ("unit: 2-8 distinct keys from a hostile alphabet / pool x node name x chunk index x attempt id x metadata file name; non-trivial: a key contains '.', '/', '%', space or is empty. "
                  "e2e: one mapped call per program, source kind in {static map, static array, run-time map, run-time array}; non-trivial: a key outside [a-z0-9], a length >= 10 or a run-time source; "
@@ -138,8 +140,9 @@ CHECKS = {
             U("props/sys", "TestC11Names", (30000, 2), (500000, 4)),
             U("props/run", "TestC11Forks", (350, 10), (6000, 12)),
             U("props/run", "TestStaleAttempt", (150, 6), (2500, 8)),
+            U("props/run", "TestE2ClusterKeys", (12, 8), (250, 8)),
         ],
-        "floors": {"quick": {"names": 30000, "source:static-map": 800, "source:dynamic-map": 300, "source:dynamic-array": 300, "len:101": 30, "split-stage": 800, "fate:zombie-reported": 100}},
+        "floors": {"quick": {"cluster-odd-key": 24, "names": 30000, "source:static-map": 800, "source:dynamic-map": 300, "source:dynamic-array": 300, "len:101": 30, "split-stage": 800, "fate:zombie-reported": 100}},
     },
     "C12": {
         "level": "exploration",
@@ -150,7 +153,10 @@ CHECKS = {
                        "operations on ResourceSemaphore checked after every step against a FIFO model (reserved <= max, grants only from the head and in request order, "
                        "no lost wake-up, over-max fails at once, final drain completes); MaxJobsSemaphore with real Metadata objects (Current <= Limit, freed slots are "
                        "handed on); GetSystemReqs clamps every finite request into (0, limit] and the result is acquirable. Every operation is one critical section, so "
-                       "operation sequences with blocked acquirers cover the interleavings. Exploration."),
+                       "operation sequences with blocked acquirers cover the interleavings; histories start with 0..limit jobs re-attached in the queued or running state. With real "
+                       "processes: local mode with generated --localcores/--localmem and per-stage requests (overlap of stage processes weighted by the reservations in _jobinfo), and a "
+                       "cluster job mode with --maxjobs 1-4 in which, in two cases of three, mrp is killed while jobs are out on the cluster and restarted with the same options: the "
+                       "number of stage processes alive at any instant stays within --maxjobs across both mrp instances, and the run completes with the model's outputs. Exploration."),
         "level_note": "Liveness is bounded progress (10 s settle per step, orders of magnitude above the microseconds needed); current size after availability updates is read from the implementation, not predicted.",
         "rule": ("rapid t.Repeat sequences (<= ~30 steps, then a drain) of acquire(n in {0, exactly free, max, >max, random}), release, updateActual, updateFreeUsed, "
                  "updateSize on limits {1,2,4,10,100,400}; MaxJobs: submit/finish(release | complete+FindDone | errors+FindDone)/FindDone with limit 1-4; GetSystemReqs: "
@@ -164,7 +170,7 @@ CHECKS = {
             U("props/run", "TestE2Resources", (40, 6), (1200, 8)),
             U("props/run", "TestE2Cluster", (20, 8), (300, 8)),
         ],
-        "floors": {"quick": {"semaphore": 5000, "maxjobs": 2000, "systemreqs": 10000, "e2-resources": 150, "jobs-overlapped": 40, "e2-cluster": 10}},
+        "floors": {"quick": {"semaphore": 5000, "maxjobs": 2000, "maxjobs-reattached": 1000, "systemreqs": 10000, "e2-resources": 150, "jobs-overlapped": 40, "e2-cluster": 60, "cluster-restart": 30}},
     },
     "C04": {
         "level": "exploration",
